@@ -114,6 +114,25 @@ def scenario(prog, db, kind, shape, nbits, nrefs):
     diff = compare_msg(it, msg, back)
     if diff:
         return 'roundtrip', diff
+    # the parsed message is a message like any other: serialising it again gives the same cell, and its parts serialise on their own
+    try:
+        again = cm.call_method(it, back, 'serialize')
+    except RaiseEx as e:
+        return 'reserialize', f'the parsed message cannot be serialised again: {e}'
+    if bocrun.ckey(it, again) != bocrun.ckey(it, cell):
+        return 'reserialize', 'serialising the parsed message gives a different cell than the one it was parsed from'
+    binit = back.attrs.get('init')
+    if isinstance(binit, Inst):
+        try:
+            ic = cm.call_method(it, binit, 'serialize')
+            decode(it, db, ic, 'StateInit', [])
+            want = cm.call_method(it, init, 'serialize')
+            if bocrun.ckey(it, ic) != bocrun.ckey(it, want):
+                return 'reserialize', 'the state-init of the parsed message serialises to a different cell than the state-init that was sent'
+        except RaiseEx as e:
+            return 'reserialize', f'the state-init of the parsed message cannot be serialised: {e}'
+        except Mismatch as e:
+            return 'reserialize', f'the state-init of the parsed message does not serialise to a StateInit cell: {str(e)[:140]}'
     return 'ok', f'{nb} bits, {nr} refs'
 
 
@@ -198,7 +217,7 @@ def check(run):
     run.explanation = 'MessageAny.serialize interpreted over the complete control space with the real capacity logic; output decoded per block.tlb and parsed back; readers by typestate.'
     run.rule('D4', 'serialising a message never fails for lack of room (bits or references): parts that do not fit inline are moved into references', 1000)
     run.rule('D1', 'the emitted cell is exactly a `Message Any` per block.tlb (schema-directed decoding consumes it exactly)', 1000)
-    run.rule('D5', 'MessageAny.deserialize(serialize(m)) returns the same header fields, state-init and body', 1000)
+    run.rule('D5', 'MessageAny.deserialize(serialize(m)) returns the same header fields, state-init and body; serialising the parsed message again gives the same cell and its state-init serialises to the StateInit cell that was sent', 1000)
     run.rule('T', 'reader conformance (typestate, both Either placements): reads = schema fields in width, sign, order; exact consumption', 15)
     run.rule('D1s', 'stand-alone wrappers: writer output decodes per schema and parses back to the same field values', 14)
     run.trust('CPython ast', 'checker interpreter', 'bitarray model', 'sa/tlbslice.py + sa/tlbdecode.py', 'bundled block.tlb')
@@ -220,8 +239,8 @@ def check(run):
             for r in ('D4', 'D1', 'D5'):
                 run.ok(r, tag, detail if r == 'D4' and nbits in (0, 1023) and nrefs == 4 else '')
         else:
-            rule = {'room': 'D4', 'layout': 'D1', 'reader': 'D5', 'roundtrip': 'D5'}[st]
-            cons = {'room': 'MessageAny.serialize[reference/bit budget]', 'layout': 'MessageAny.serialize[layout]', 'reader': 'MessageAny.deserialize', 'roundtrip': 'MessageAny round trip'}[st]
+            rule = {'room': 'D4', 'layout': 'D1', 'reader': 'D5', 'roundtrip': 'D5', 'reserialize': 'D5'}[st]
+            cons = {'room': 'MessageAny.serialize[reference/bit budget]', 'layout': 'MessageAny.serialize[layout]', 'reader': 'MessageAny.deserialize', 'roundtrip': 'MessageAny round trip', 'reserialize': 'MessageAny parse-then-serialise'}[st]
             fails.setdefault((rule, cons), []).append((tag, detail))
     for (rule, cons), items in fails.items():
         tag, detail = items[0]
